@@ -583,21 +583,7 @@ func trav(r *Run, focus string) {
 	defer close(watchAck)
 	if watcher {
 		r.Go("watcher", func() any {
-			for {
-				// Either signalling style is accepted: a value per receive while stalled and a
-				// closed channel once the run loop has ended, or a channel that is closed
-				// while stalled. The run loop only ends after Stop, which the driver calls.
-				_, ok := <-op.Stalled()
-				if !ok {
-					tw.mu.Lock()
-					ended := tw.stopCalledW
-					tw.mu.Unlock()
-					if ended {
-						watchClosed.Store(true)
-						return nil
-					}
-				}
-				tw.mu.Lock()
+			snapshot := func() { // tw.mu held
 				h := &stallHit{inDo: tw.inDo, npend: len(tw.pending), returns: tw.returns, unq: map[string]bool{}, forms: map[string]int{}}
 				for k, l := range tw.learned {
 					if tw.queried[k] == 0 {
@@ -606,7 +592,42 @@ func trav(r *Run, focus string) {
 					}
 				}
 				tw.lastHit = h
-				tw.mu.Unlock()
+			}
+			for {
+				// Either signalling style is accepted: a value per receive while stalled and a
+				// closed channel once the run loop has ended, or a channel that is closed
+				// while stalled. The run loop only ends after Stop, which the driver calls.
+				//
+				// The snapshot must describe the instant the signal was observed. The harness
+				// records "this AddNodes call has returned" under tw.mu, so the signal is
+				// tested (without blocking) under tw.mu too: whatever is recorded as handed
+				// over had really been handed over before the test.
+				tw.mu.Lock()
+				got := false
+				select {
+				case <-op.Stalled():
+					got = true
+				default:
+				}
+				if got {
+					if tw.stopCalledW {
+						tw.mu.Unlock()
+						watchClosed.Store(true)
+						return nil
+					}
+					snapshot()
+					tw.mu.Unlock()
+				} else {
+					tw.mu.Unlock()
+					// wait for the next change; a received value is the signal itself
+					// (value style), a closed channel is re-tested under the lock
+					if _, isValue := <-op.Stalled(); !isValue {
+						continue
+					}
+					tw.mu.Lock()
+					snapshot()
+					tw.mu.Unlock()
+				}
 				watchHit.Store(true)
 				r.Wake()
 				if _, open := <-watchAck; !open {
@@ -740,13 +761,22 @@ func trav(r *Run, focus string) {
 				if !nfOK(a) {
 					continue
 				}
-				// A consumer blocked on Stalled() can be handed an offer the run loop computed
-				// before an AddNodes call that has since returned (known finding, DESIGN §12.3):
-				// that history gets its own class so that every other cause is still reported.
-				stale := hit != nil && hit.unq[k]
-				if stale {
-					// Either the known stale offer (the run loop has been woken by the addition
-					// and will query the contact next) or a real failure to ever query it: decided
+				// Is this form one the statement requires to have been queried by now? Only
+				// with a full result set may a contact be left, and then only one farther than
+				// the farthest member or of unknown id.
+				owed := !full
+				if full && a.Id.Ok {
+					owed = cmpBytes(dist(a.Id.Value.AsByteArray(), tw.target), far) <= 0
+				}
+				if !owed {
+					continue
+				}
+				// A consumer blocked on Stalled() could (before the repair of D10, DESIGN §12.3)
+				// be handed an offer the run loop computed before an AddNodes call that had
+				// since returned: that history has its own class.
+				if hit != nil && hit.unq[k] {
+					// Either that stale offer (the run loop has been woken by the addition and
+					// will query the contact next) or a real failure to ever query it: decided
 					// at the next quiescent point.
 					if tw.staleSuspect == "" {
 						tw.staleSuspect, tw.staleDesc = k, a.String()
@@ -754,24 +784,11 @@ func trav(r *Run, focus string) {
 					return
 				}
 				if !full {
-					if stale {
-						r.Violate("stale-stall-offer-after-addnodes", "a consumer blocked on Stalled() received the signal although contact %s, handed over by an AddNodes call that had returned, was never queried (result set %d<%d)", a, len(els), tw.effK)
-					} else {
-						r.Violate("stalled-with-unqueried-candidate", "Stalled() fired, result set has %d<%d members, yet learned contact %s (passes filter) was never queried", len(els), tw.effK, a)
-					}
-					return
+					r.Violate("stalled-with-unqueried-candidate", "Stalled() fired, result set has %d<%d members, yet learned contact %s (passes filter) was never queried", len(els), tw.effK, a)
+				} else {
+					r.Violate("stalled-with-closer-candidate", "Stalled() fired with a full result set, yet unqueried contact %s is not farther than the farthest member", a)
 				}
-				if a.Id.Ok {
-					d := dist(a.Id.Value.AsByteArray(), tw.target)
-					if cmpBytes(d, far) <= 0 { // only contacts *farther* than the farthest member may be left
-						if stale {
-							r.Violate("stale-stall-offer-after-addnodes", "a consumer blocked on Stalled() received the signal with a full result set although contact %s, handed over by an AddNodes call that had returned, is not farther than the farthest member and was never queried", a)
-						} else {
-							r.Violate("stalled-with-closer-candidate", "Stalled() fired with a full result set, yet unqueried contact %s is not farther than the farthest member", a)
-						}
-						return
-					}
-				}
+				return
 			}
 		}
 	}
